@@ -97,6 +97,11 @@ var scenarios = []scenario{
 	{name: "c-flap-during-timeout", ops: []scOp{{0, "send", ""}, {1.2, "disconnect", ""}, {1.25, "send", ""}, {1.3, "connect", ""}},
 		reply: map[string]float64{"r1": -1, "r2": 0.3}, end: 5.0, only: []string{"queue.Pop<|1"}, prop: "C08", scale: 4,
 		sigs: []string{"timeout-early", "timeout-of-unwritten", "never-concluded"}},
+	// C02: the link flaps while the response to r1 is being completed (slow queue Pop inside the completion): whatever Resume
+	// sees at that moment, r1 must not be written again, and r2 is written once afterwards
+	{name: "c-flap-during-completion", ops: []scOp{{0, "send", ""}, {0.6, "disconnect", ""}, {0.7, "connect", ""}, {1.5, "send", ""}},
+		reply: map[string]float64{"r1": 0.5, "r2": 0.1}, end: 3.5, only: []string{"queue.Pop<|1"}, prop: "C02", scale: 4, stall: 0.5,
+		sigs: []string{"two-outstanding", "written-twice", "write-order", "never-concluded"}},
 	// the connection drops while the dispatcher is inside Write (which then fails); two more requests follow while
 	// disconnected; after the reconnection both must be written and answered (C10)
 	{name: "c-drop-during-write", ops: []scOp{{0, "send", ""}, {0.3, "disconnect", ""}, {0.4, "send", ""}, {0.45, "send", ""}, {2.0, "connect", ""}},
@@ -149,6 +154,12 @@ var scenarios = []scenario{
 	{name: "s-many-timeouts", server: true, clients: manyClients(13),
 		ops:   manySends(13),
 		reply: manyNever(13), end: 7.0, only: []string{"handler.cancel|1"}, prop: "C07", scale: 4,
+		sigs: []string{"never-concluded"}},
+	// C07: the pump is inside a slow Write for C while the outstanding requests of A and B are answered: two ready signals for
+	// different clients, one slot; the queued requests of both (r3 for A, r4 for B) must be written afterwards
+	{name: "s-two-completions", server: true, clients: []string{"A", "B", "C"},
+		ops:   []scOp{{0, "send", "A"}, {0.05, "send", "B"}, {0.1, "send", "A"}, {0.15, "send", "B"}, {0.3, "send", "C"}},
+		reply: map[string]float64{"r1": 0.5, "r2": 0.5, "r3": 0.1, "r4": 0.1, "r5": 0.1}, end: 4.5, only: []string{"ws.Write>|3"}, prop: "C07", scale: 4, stall: 1.0,
 		sigs: []string{"never-concluded"}},
 	{name: "s-two-clients", server: true, clients: []string{"A", "B"},
 		ops:   []scOp{{0, "send", "A"}, {0.05, "send", "B"}, {0.5, "send", "A"}, {0.55, "send", "B"}},
